@@ -310,3 +310,43 @@ Definition k_multi (stream json : bool) (codes : list N) : list N :=
   let res := if stream then list_info_stream json render ins else list_info_files json render ins in
   [Z.to_N (exit_status (snd res)); N.of_nat (List.length (fst res));
    match fst res with [[n]] => if json then n else 0%N | _ => 0%N end].
+
+(* ---- page selections and the stdout decision of `extract -m page … -`
+   (pkg/cli/extract_exec.go extractSelectedPageToStdout).  api.PagesForPageSelection returns
+   a types.IntSet = map[int]bool in which negated pages (!N / nN) are PRESENT with value
+   false; the selected pages are the keys whose value is true. ---- *)
+Definition selmap := list (Z * bool).
+
+Definition selected (m : selmap) : list Z := map fst (filter snd m).
+
+(* pageNr, count := 0, 0; for i, selected := range pages { if selected { pageNr = i; count++ } } *)
+Definition count_step (acc : Z * nat) (e : Z * bool) : Z * nat :=
+  if snd e then (fst e, S (snd acc)) else acc.
+Definition count_loop (m : selmap) : Z * nat := fold_left count_step m (0%Z, O).
+
+(* if count != 1 { return error }; return writeExtractedPageToStdout(ctx, pageNr, w) *)
+Definition stdout_page (m : selmap) : option Z :=
+  let (nr, c) := count_loop m in if Nat.eqb c 1 then Some nr else None.
+
+(* the tempting simplification: len(pages) == 1 and take the only key *)
+Definition naive_stdout_page (m : selmap) : option Z :=
+  match m with [(p, _)] => Some p | _ => None end.
+
+(* file mode (api.ExtractPagesFile): one file per selected page; doc p = the single-page document *)
+Definition file_mode_outputs (doc : Z -> list N) (m : selmap) : list (list N) := map doc (selected m).
+
+(* stdout mode: bytes on stdout and exit status *)
+Definition stdout_mode (doc : Z -> list N) (m : selmap) : list N * Z :=
+  match stdout_page m with
+  | Some p => (doc p, exit_status true)
+  | None => ([], exit_status false)
+  end.
+
+(* wire: entries flattened as page, flag(0/1), …  Reply [1; page] or [0] *)
+Fixpoint selmap_of (l : list N) : selmap :=
+  match l with
+  | p :: b :: r => (Z.of_N p, negb (N.eqb b 0)) :: selmap_of r
+  | _ => []
+  end.
+Definition k_seldec (l : list N) : list N :=
+  match stdout_page (selmap_of l) with Some p => [1%N; Z.to_N p] | None => [0%N] end.
